@@ -100,7 +100,7 @@ def run(index, tier="quick", seed=0) -> Result:
         if fn is None:
             raise AnalysisError(f"anchor vanished: io.{name}")
         where = f"{fn.file}:{fn.lineno}"
-        ex = Extractor(fn.node)
+        ex = Extractor(fn.node, shape_param=fn.params[0] if fn.params else "shape")
         try:
             skel = ex.run()
         except Unsupported as e:
